@@ -375,6 +375,20 @@ func main() {
 			emitEnforce("enforce", name, ov[0], ov[1], c.CrossChainUTXOFreezeHeight, c.CrossChainUTXORestrictionHeight)
 		}
 	}
+	// the network switches themselves (config.go): TestNet()/RegNet() applied to
+	// the defaults, as SetupConfig and the tools (dns seed, chain generator) do,
+	// must leave the policy disabled before any enforcement runs
+	for _, sw := range []struct {
+		name string
+		f    func(*config.Configuration) *config.Configuration
+	}{{"testnet", (*config.Configuration).TestNet}, {"regnet", (*config.Configuration).RegNet}} {
+		for _, ov := range overrides {
+			c := config.GetDefaultParams()
+			c.CrossChainUTXOFreezeHeight, c.CrossChainUTXORestrictionHeight = ov[0], ov[1]
+			c = sw.f(c)
+			emitEnforce("netswitch", sw.name, ov[0], ov[1], c.CrossChainUTXOFreezeHeight, c.CrossChainUTXORestrictionHeight)
+		}
+	}
 	// through the real SetupConfig with a configuration file
 	origDefault, origParams := config.DefaultParams, config.Parameters
 	cfgDir := filepath.Join(run.Out, "cfg")
